@@ -170,6 +170,14 @@ Builtin(op, a) ==
     [] op = "+" -> Num(a[1][2] + a[2][2])
     [] op = "-" -> IF n = 1 THEN Num(0 - a[1][2]) ELSE Num(a[1][2] - a[2][2])
     [] op = "*" -> Num(a[1][2] * a[2][2])
+    [] op = "/" ->   \* only exact quotients are in the fragment (C20); integer vs
+                     \* real division of other operands is engine-defined
+         IF a[2][2] # 0 /\ (a[1][2] % (IF a[2][2] < 0 THEN -a[2][2] ELSE a[2][2])) = 0
+         THEN LET x == a[1][2] y == a[2][2]
+                  ax == IF x < 0 THEN -x ELSE x
+                  ay == IF y < 0 THEN -y ELSE y
+              IN Num(IF (x < 0) # (y < 0) THEN -(ax \div ay) ELSE ax \div ay)
+         ELSE Assert(FALSE, <<"inexact division is outside the fragment", a>>)
     [] op = "%" -> IF a[2][2] = 0 THEN Null
                    ELSE LET x == a[1][2] y == a[2][2]
                             ax == IF x < 0 THEN -x ELSE x
@@ -218,6 +226,51 @@ ArgBest(vals, min) ==
   IN IF ok = <<>> THEN Null
      ELSE IF Len(args) = 1 THEN args[1] ELSE <<"any", SortVals(args)>>
 
+(* ArgMinK / ArgMaxK (library predicates of the SQLite dialect, used through  *)
+(* `ArgMin2(x) = ArgMinK(x, 2)`): the list of the args of the k smallest      *)
+(* (largest) values, best first.  Tied values may come in any arrangement and  *)
+(* a tie across the k-th place may keep any of the tied rows: the result is    *)
+(* any of the permitted lists.  The operator names carry k: "ArgMinK2".        *)
+(* Array (`Array= key -> e`): the elements e ordered by key, k = 0 (all).      *)
+(* Null values are ignored like in ArgMin / ArgMax; nothing left gives null.   *)
+MinKOps == {"ArgMinK1", "ArgMinK2", "ArgMinK3"}
+MaxKOps == {"ArgMaxK1", "ArgMaxK2", "ArgMaxK3"}
+ArgKOps == MinKOps \cup MaxKOps
+KOf(op) == CASE op \in {"ArgMinK1", "ArgMaxK1"} -> 1
+             [] op \in {"ArgMinK2", "ArgMaxK2"} -> 2
+             [] op \in {"ArgMinK3", "ArgMaxK3"} -> 3
+             [] OTHER -> 0
+
+RECURSIVE BestOrders(_, _, _)
+(* index sequences over I listing keys best first: repeatedly any best one *)
+BestOrders(keys, min, I) ==
+  IF I = {} THEN {<<>>}
+  ELSE UNION {{<<i>> \o t : t \in BestOrders(keys, min, I \ {i})} :
+                i \in {j \in I : \A l \in I :
+                          IF min THEN ~VLess(keys[l], keys[j])
+                          ELSE ~VLess(keys[j], keys[l])}}
+
+(* pairs: sequence of <<key, payload>>; the payloads of the k best keys     *)
+KBestLists(pairs, min, k) ==
+  LET n == Len(pairs)
+      m == IF k = 0 \/ n < k THEN n ELSE k
+      lists == {Lst([i \in 1..m |-> pairs[p[i]][2]]) :
+                  p \in BestOrders([i \in 1..n |-> pairs[i][1]], min, 1..n)}
+  IN IF Cardinality(lists) = 1 THEN CHOOSE l \in lists : TRUE
+     ELSE <<"any", SortVals(SetToSeq(lists))>>
+
+ArgKBest(vals, min, k) ==
+  LET ok == SelectSeq(vals, LAMBDA v : ~IsNull(Field(v, "value")))
+  IN IF ok = <<>> THEN Null
+     ELSE KBestLists([i \in 1..Len(ok) |-> <<Field(ok[i], "value"), Field(ok[i], "arg")>>],
+                     min, k)
+
+ArrayOf(vals) ==
+  LET ok == SelectSeq(vals, LAMBDA v : ~IsNull(Field(v, "arg")))
+  IN IF ok = <<>> THEN Null
+     ELSE KBestLists([i \in 1..Len(ok) |-> <<Field(ok[i], "arg"), Field(ok[i], "value")>>],
+                     TRUE, 0)
+
 (* dev: the set of named *engine deviations* under which the bag is         *)
 (* evaluated.  The documented semantics is dev = {}.  Deviations exist only  *)
 (* to classify a disagreement precisely ("explained by exactly this          *)
@@ -231,6 +284,10 @@ Agg(op, vals, dev) ==
   CASE op \in {"ArgMin", "ArgMax"} /\ "argbest_single_null_value" \in dev
          /\ Len(vals) = 1 /\ IsNull(Field(vals[1], "value")) -> Field(vals[1], "arg")
     [] op \in {"ArgMin", "ArgMax"} -> ArgBest(vals, op = "ArgMin")
+    [] op \in ArgKOps /\ "argbest_single_null_value" \in dev
+         /\ Len(vals) = 1 /\ IsNull(Field(vals[1], "value")) -> Lst(<<Field(vals[1], "arg")>>)
+    [] op \in ArgKOps -> ArgKBest(vals, op \in MinKOps, KOf(op))
+    [] op = "Array" -> ArrayOf(vals)
     [] op = "List" /\ "list_keeps_nulls" \in dev /\ vals # <<>> -> <<"m", SortVals(vals)>>
     [] op = "Set" /\ "set_keeps_nulls" \in dev /\ vals # <<>> -> <<"m", SortVals(Dedup(vals))>>
     [] op = "Count" /\ "count_empty_zero" \in dev /\ nn = <<>> -> Num(0)
